@@ -19,13 +19,13 @@ from ..worlds import relay
 ID = "C16"
 LEVEL = "exploration"
 CHUNK = 40
-BUDGET = {"quick": {"runs": 2200, "wall": 150}, "thorough": {"runs": 100000, "wall": 3000}}
+BUDGET = {"quick": {"runs": 4000, "wall": 150}, "thorough": {"runs": 100000, "wall": 3000}}
 RULE = ("pipelines = random subsets/orders of {is_not_too_large, is_signed, is_recent, is_certain_kind, "
         "is_author_whitelisted, is_author_blacklisted, is_pow, is_not_hellthread, is_service_event, "
         "dynamic_lists.is_pubkey_allowed} (is_signed always present) with random bounds; per run 4-14 "
         "events at / just inside / just outside each bound (content length, age and future skew under the "
         "virtual clock, leading zero bits of mined ids, p-tag counts, kinds, authors, service kind by a "
-        "foreign author, allow/deny-listed authors); lists world: 300 runs per 2200 with a list refresh "
+        "foreign author, allow/deny-listed authors); lists world: 40% of the runs with a list refresh "
         "pre-empted at every bytecode boundary against 1-3 validations on parked threads; both back ends; "
         "non-trivial = some event was refused by a non-signature validator and some event was admitted; "
         "distinct = hash of (backend, pipeline, per-event expected decision)")
@@ -41,7 +41,7 @@ ASSUMPTIONS = ["documented bounds: content length <= max_event_size; age <= olde
                "bits >= require_pow; for kinds 1 and 7 at most hellthread_limit p tags; kind 31494 only by "
                "the service key; dynamic lists as in docs/dynamic_lists.md",
                "validators run in configured order and stop at the first refusal"]
-SHRINK = [["clients", "*", "script"], ["pipeline"]]
+SHRINK = [["clients", "*", "script"], ["pipeline"], ["validators"]]
 
 V = "nostr_relay.validators."
 ALL = [V + "is_not_too_large", V + "is_recent", V + "is_certain_kind", V + "is_author_whitelisted",
@@ -66,7 +66,100 @@ def mine(rng, key, bits, kind=1, created_at=None, tags=None, content="pow"):
         n += 1
 
 
+def gen_lists(rng):
+    """lists mode: a refresh pre-empted at bytecode boundaries by validations on real threads"""
+    backend = rng.choice(["sql", "lmdb"])
+    keys = [0, 1, 2]
+    a0 = rng.sample(keys, rng.randint(1, 2))
+    a1 = rng.sample(keys, rng.randint(1, 2)) if rng.random() < 0.5 else list(a0)
+    vals = [rng.choice([0, 1, 2, 3]) for _ in range(rng.randint(1, 3))]     # 3 = never listed
+    return {"mode": "lists", "backend": backend, "allow0": a0, "allow1": a1, "validators": vals,
+            "whitelist": rng.random() < 0.3,
+            # two scheduling styles: fine-grained random stepping, and "start a validation at a random
+            # bytecode boundary of the refresh and let it run almost undisturbed" (few pre-emptions,
+            # which is how rare windows are usually hit)
+            "weights": ({"main": rng.choice([1.0, 3.0, 8.0]), "start": rng.choice([0.05, 0.2, 1.0]),
+                         "val": rng.choice([0.3, 1.0, 3.0])} if rng.random() < 0.35 else
+                        {"main": 1.0, "start": rng.choice([0.01, 0.02, 0.04]), "val": rng.choice([20.0, 60.0])}),
+            "step_cap": 60000}
+
+
+def run_lists(case, sim):
+    import asyncio
+    from ..worlds import store, lists as lw
+    from .. import kernel
+    backend = case["backend"]
+    svc = evgen.SERVICE
+    cfg = {"service_privatekey": evgen.SERVICE_SK,
+           "dynamic_lists": {"check_interval": 7200, "allow_list_queries": [{"kinds": [3], "authors": [svc.pub]}]}}
+    if case.get("whitelist"):
+        cfg["pubkey_whitelist"] = [evgen.KEYS[4].pub]
+    w = store.StoreWorld(sim, backend, cfg=cfg)
+    out = {}
+
+    async def main(_):
+        from nostr_relay import dynamic_lists as dl
+        from nostr_relay.config import Config
+        await w.env.open()
+        await w.settle()
+        try:
+            st = w.env.storage
+            ev0 = evgen.make(svc, kind=3, created_at=histgen.T0 - 100,
+                             tags=[["p", evgen.AUTHORS[k].pub] for k in case["allow0"]], content="")
+            await st.add_event(ev0)
+            await w.settle()
+            lb = dl.ListBuilder()
+            await lb.run_once()
+            before = {b.hex() for b in dl.ALLOWED_PUBKEYS}
+            ev1 = evgen.make(svc, kind=3, created_at=histgen.T0 - 50,
+                             tags=[["p", evgen.AUTHORS[k].pub] for k in case["allow1"]], content="")
+            await st.add_event(ev1)
+            await w.settle()
+            pubs = [evgen.AUTHORS[k].pub if k < 3 else evgen.KEYS[4].pub if False else "ee" * 32 for k in case["validators"]]
+            vals = [lw.Validator(i, pk, dl.is_pubkey_allowed, Config) for i, pk in enumerate(pubs)]
+            with lw.Interleaver(sim, dl.ListBuilder.run_once.__code__, dl.is_pubkey_allowed.__code__,
+                                vals, case["weights"]) as il:
+                await lb.run_once()
+                il.finish()
+            after = {b.hex() for b in dl.ALLOWED_PUBKEYS}
+            out.update(before=before, after=after, vals=[(v.pubkey, v.outcome, v.started_at, v.finished_at, v.steps) for v in vals],
+                       boundaries=il.boundaries, switches=il.switches)
+        finally:
+            await w.env.close()
+
+    try:
+        kernel.run_sim(sim, main)
+    finally:
+        w.env.cleanup()
+    viol = []
+    probes = collections.Counter()
+    before, after = out["before"], out["after"]
+    in_window = 0
+    for pk, outcome, s0, s1, steps in out["vals"]:
+        listed = pk in before or pk in after
+        if s0 is not None and s1 is not None and s0 < out["boundaries"]:
+            in_window += 1
+        if before and after and not listed and outcome == "pass":
+            viol.append({"cls": "allow-list-window", "sig": "allow-list-window|%s" % backend,
+                         "detail": {"pubkey": pk[:8], "before": sorted(x[:8] for x in before), "after": sorted(x[:8] for x in after),
+                                    "started_at_boundary": s0, "finished_at_boundary": s1,
+                                    "refresh_boundaries": out["boundaries"]}})
+        if pk in before and pk in after and outcome != "pass":
+            probes["transient_overblock"] += 1
+    probes["mode_lists"] = 1
+    probes["bytecode_boundaries"] = out["boundaries"]
+    probes["thread_switches"] = out["switches"]
+    probes["validations_overlapping_refresh"] = in_window
+    sim.note("lists", "%s %s" % (out["boundaries"], out["switches"]))
+    return {"violations": viol[:1], "nontrivial": in_window > 0, "probes": dict(probes),
+            "signature": qcommon.h16((backend, case["allow0"], case["allow1"], [(v[0][:6], v[1], v[2], v[3]) for v in out["vals"]]))}
+
+
 def gen(rng, knobs):
+    import os
+    share = float(os.environ.get("VERIF_C16_LISTS_SHARE", "0.4"))
+    if rng.random() < share:
+        return gen_lists(rng)
     backend = rng.choice(["sql", "lmdb"])
     pipe = [p for p in ALL if rng.random() < 0.4]
     rng.shuffle(pipe)
@@ -92,11 +185,11 @@ def gen(rng, knobs):
         what = rng.choice(["size", "size", "age", "age", "kind", "pow", "pow", "hell", "service", "plain", "author"])
         if what == "size":
             n = max(0, cfg["max_event_size"] + rng.choice([-1, 0, 1, 5]))
-            ev = evgen.make(a, kind=1, created_at=T - 5, content="x" * n)
+            ev = evgen.make(a, kind=rng.choice([1, 1, 20000]), created_at=T - 5, content="x" * n)
         elif what == "age":
             d = rng.choice([cfg["oldest_event"] - 1, cfg["oldest_event"], cfg["oldest_event"] + 1, cfg["oldest_event"] + 30,
                             -3599, -3600, -3601, -3630, 0])
-            ev = evgen.make(a, kind=1, created_at=T - d, content="t")
+            ev = evgen.make(a, kind=rng.choice([1, 1, 25000]), created_at=T - d, content="t")
         elif what == "kind":
             ev = evgen.make(a, kind=rng.choice([0, 1, 2, 5, 7, 30000, 30001]), created_at=T - 5, content="k")
         elif what == "pow":
@@ -118,6 +211,8 @@ def gen(rng, knobs):
 
 
 def sample(case):
+    if case.get("mode") == "lists":
+        return {k: case[k] for k in ("mode", "backend", "allow0", "allow1", "validators", "weights")}
     return {"backend": case["backend"], "pipeline": [p.split(".")[-1] for p in case["pipeline"]],
             "cfg": {k: (v if not isinstance(v, list) or len(str(v)) < 40 else len(v)) for k, v in case["cfg"].items()},
             "events": sum(1 for i in case["clients"][1]["script"] if i[0] == "send")}
@@ -171,6 +266,8 @@ def decide(name, ev, cfg, now, lists_state, service_pub):
 
 
 def run(case, sim):
+    if case.get("mode") == "lists":
+        return run_lists(case, sim)
     backend = case["backend"]
     names = recval.install(case["pipeline"])
     cfg = dict(case["cfg"])
@@ -317,7 +414,9 @@ def run(case, sim):
             else:
                 if not str(ok[3]):
                     viol.append({"cls": "refusal-without-reason", "sig": "refusal-without-reason|" + base, "detail": {}})
-                if not dup and (eid in final or pushed[eid] or any(eid in d for s2, d in states if s2 > fr["t_deliver"])):
+                accepted_elsewhere = any(k[1] == eid and k[2] is True for s3, k in oks)
+                if not dup and not accepted_elsewhere and (
+                        eid in final or pushed[eid] or any(eid in d for s2, d in states if s2 > fr["t_deliver"])):
                     viol.append({"cls": "refused-but-trace", "sig": "refused-but-trace|%s" % base,
                                  "detail": {"stored": eid in final, "pushed": pushed[eid]}})
     seen, v2 = set(), []
